@@ -232,6 +232,8 @@ var degenerateForms = []string{
 	// an unexported field: a refused store, THEN a read (a lookup remembered by the store path must not let the read through)
 	"try { break } catch e9 { try { e9.s = \"x\" } catch err9 { }\ne9.s }", "try { break } catch e9 { try { e9.s = \"x\" } catch err9 { }\nx9 = e9.s\nx9 }", "try { hemb.npInner = 1 } catch err9 { }\nhemb.npInner",
 	"try { continue } catch e9 { try { e9.s += \"x\" } catch err9 { }\n[e9.s] }", "try { hembv.npInner = nil } catch err9 { }\nhembv.npInner\nhembs[0].npInner", "try { break } catch e9 { for i9 = 0; i9 < 3; i9++ { try { e9.s = i9 } catch err9 { }\ntry { e9.s } catch err9 { } }\ne9.s }",
+	// the value of make(type ...) is a type: nothing can be stored THROUGH it (Go keeps type descriptors in read-only memory)
+	"t9 = make(type a9, 1)\nu9 = make(type b9, \"x\")\n*t9 = *u9", "t9 = make(type a9, 1)\n*t9 = 5", "t9 = make(type a9, [1])\nfunc f9(p) { *p = *p }\nf9(t9)\nmake(a9)", "t9 = make(type a9, 1.5)\nl9 = [t9]\n*l9[0] = *l9[0]\nmake(a9)",
 	"func rec(n) { return rec(n) }", "type T struct", "struct", "chan", "map", "len", "return 1, ", "throw", "break", "continue", "return",
 }
 
